@@ -67,6 +67,8 @@ class PathExec(object):
       elif len(vals) == 1 and isinstance(vals[0], ast.UnaryOp) and isinstance(vals[0].op, ast.USub) and \
           isinstance(vals[0].operand, ast.Constant) and isinstance(vals[0].operand.value, (int, float)):
         out[name] = ('const', -vals[0].operand.value)
+      elif len(vals) == 1 and isinstance(vals[0], ast.BinOp) and _fold(vals[0]) is not None:
+        out[name] = ('const', _fold(vals[0]))
       elif len(vals) == 1 and isinstance(vals[0], ast.Call) and isinstance(vals[0].func, ast.Name) and vals[0].func.id == 'float' and \
           len(vals[0].args) == 1 and isinstance(vals[0].args[0], ast.Constant) and vals[0].args[0].value in ('inf', 'Inf', 'infinity'):
         out[name] = ('const', float('inf'))
@@ -104,6 +106,14 @@ class PathExec(object):
       return self.assume[t]
     if t == ('call', 'float', ('const', 'inf')):
       return ('const', float('inf'))
+    if t[0] == 'binop' and len(t) == 4:
+      l, r = self._norm(t[2]), self._norm(t[3])
+      if isinstance(l, tuple) and isinstance(r, tuple) and l[0] == 'const' and r[0] == 'const' and \
+         all(isinstance(x[1], int) and not isinstance(x[1], bool) for x in (l, r)):
+        v = _fold_op(t[1], l[1], r[1])
+        if v is not None:
+          return ('const', v)
+      return ('binop', t[1], l, r)
     # TABLE[k] / TABLE.get(k[, default]) with a constant key and a literal module-level TABLE
     tab = key = default = None
     has_default = False
@@ -339,3 +349,36 @@ def pure(t):
       return all(pure(x) for x in t[2:])
     return False
   return all(pure(x) for x in t[1:] if isinstance(x, tuple))
+
+
+def _fold_op(op, a, b):
+  try:
+    if op == 'Add':
+      return a + b
+    if op == 'Sub':
+      return a - b
+    if op == 'Mult':
+      return a * b
+    if op == 'Pow' and 0 <= b <= 64 and abs(a) <= 1 << 16:
+      return a ** b
+    if op == 'LShift' and 0 <= b <= 64:
+      return a << b
+    if op == 'BitOr':
+      return a | b
+    if op == 'BitAnd':
+      return a & b
+  except Exception:
+    return None
+  return None
+
+
+def _fold(e):
+  """integer value of a constant arithmetic expression, else None"""
+  if isinstance(e, ast.Constant) and isinstance(e.value, int) and not isinstance(e.value, bool):
+    return e.value
+  if isinstance(e, ast.BinOp):
+    l, r = _fold(e.left), _fold(e.right)
+    if l is None or r is None:
+      return None
+    return _fold_op(type(e.op).__name__, l, r)
+  return None
